@@ -676,3 +676,11 @@ Example demo_slot_reuse :
   | _ => False
   end.
 Proof. vm_compute. split; [reflexivity|]. eexists. split; reflexivity. Qed.
+
+(* KF-C19-3: a pop from pending_capacity that is not followed by transition_after, on a record whose last reason it was: the
+   model rejects the section at its end (Quiesce guard, Stuck 9) - the implementation keeps the record for ever *)
+Example known_evict_rejected :
+  srun (sinit None None 0%Z 20%Z None)
+       [ LInsert 0 1 1; LPush KCap (0, 1); LTransitionAfter (0, 1) (mkSO true false false true); LQuiesce;
+         LPop KCap; LQuiesce ] = inr (5, SStuck 9).
+Proof. vm_compute. reflexivity. Qed.
